@@ -177,6 +177,8 @@ static int TRACE = 0;
 #include "lpdata_EGLPNUM_TYPENAME.h"
 #include "lpdefs_EGLPNUM_TYPENAME.h"
 #include "simplex_EGLPNUM_TYPENAME.h"
+#include "basis_EGLPNUM_TYPENAME.h"
+#include "fct_EGLPNUM_TYPENAME.h"
 #include "price_EGLPNUM_TYPENAME.h"
 #include "qstruct_EGLPNUM_TYPENAME.h"
 #include "lib_EGLPNUM_TYPENAME.h"
@@ -2321,6 +2323,47 @@ void free_cache (
 	p->qstatus = QS_LP_MODIFIED;
 }
 
+/* QSget_basis_order, QSget_binv_row and QSget_tableau_row describe the
+ * basis stored with the problem.  After QSexact_solver or QSload_basis the
+ * simplex data still hold an older basis, possibly of another size, or none
+ * at all: load and factor the stored one first. */
+static int sync_internal_basis (
+	EGLPNUM_TYPENAME_QSdata * p)
+{
+	int rval = 0;
+	int singular = 0;
+
+	if (p->basis == 0)
+	{
+		QSlog("no active basis in store");
+		rval = 1;
+		goto CLEANUP;
+	}
+	if (p->factorok && p->lp->baz && p->lp->basisid != -1)
+		goto CLEANUP;
+
+	EGLPNUM_TYPENAME_free_internal_lpinfo (p->lp);
+	EGLPNUM_TYPENAME_init_internal_lpinfo (p->lp);
+	rval = EGLPNUM_TYPENAME_build_internal_lpinfo (p->lp);
+	CHECKRVALG (rval, CLEANUP);
+	EGLPNUM_TYPENAME_ILLfct_set_variable_type (p->lp);
+	rval = EGLPNUM_TYPENAME_ILLbasis_load (p->lp, p->basis);
+	CHECKRVALG (rval, CLEANUP);
+	rval = EGLPNUM_TYPENAME_ILLbasis_factor (p->lp, &singular);
+	CHECKRVALG (rval, CLEANUP);
+	if (singular)
+	{
+		QSlog("the stored basis is singular");
+		rval = 1;
+		goto CLEANUP;
+	}
+	p->factorok = 1;
+
+CLEANUP:
+
+	EG_RETURN (rval);
+}
+
 EGLPNUM_TYPENAME_QSLIB_INTERFACE int EGLPNUM_TYPENAME_QSget_binv_row (
 	EGLPNUM_TYPENAME_QSdata * p,
 	int indx,
@@ -2351,6 +2394,9 @@ EGLPNUM_TYPENAME_QSLIB_INTERFACE int EGLPNUM_TYPENAME_QSget_binv_row (
 		goto CLEANUP;
 	}
 
+	rval = sync_internal_basis (p);
+	CHECKRVALG (rval, CLEANUP);
+
 	rval = EGLPNUM_TYPENAME_ILLlib_tableau (p->lp, indx, binvrow, 0);
 	CHECKRVALG (rval, CLEANUP);
 
@@ -2376,6 +2422,9 @@ EGLPNUM_TYPENAME_QSLIB_INTERFACE int EGLPNUM_TYPENAME_QSget_tableau_row (
 		goto CLEANUP;
 	}
 
+	rval = sync_internal_basis (p);
+	CHECKRVALG (rval, CLEANUP);
+
 	rval = EGLPNUM_TYPENAME_ILLlib_tableau (p->lp, indx, 0, tableaurow);
 	CHECKRVALG (rval, CLEANUP);
 
@@ -2399,6 +2448,9 @@ EGLPNUM_TYPENAME_QSLIB_INTERFACE int EGLPNUM_TYPENAME_QSget_basis_order (
 		rval = 1;
 		goto CLEANUP;
 	}
+
+	rval = sync_internal_basis (p);
+	CHECKRVALG (rval, CLEANUP);
 
 	rval = EGLPNUM_TYPENAME_ILLlib_basis_order (p->lp, basorder);
 	CHECKRVALG (rval, CLEANUP);
